@@ -3,6 +3,7 @@ C04 / chart soundness of the Earley model: every tree the machine yields is a de
 symbol over all columns (for every policy, prediction order, scanner and fuel).
 -/
 import Proofs.C04Defs
+import Proofs.EarleyCols
 namespace FV.Earley
 
 /-- a yielded parser tree: the node of the requested start symbol over one of its rules, spanning all columns -/
@@ -96,11 +97,6 @@ theorem good_sym_ne_start {c : Cfg} (hs : SaneS c) {s : St} {k : Nat} {x : NT} {
   · exact hs.start_fresh _ _ a r h hmem
 
 /-! ### initial chart -/
-
-theorem colAt_replicate (n j : Nat) : colAt (List.replicate n ({} : Col)) j = {} := by
-  unfold colAt
-  rw [List.getD_eq_getElem?_getD, List.getElem?_replicate]
-  split <;> rfl
 
 theorem goodCols_replicate (c : Cfg) (n : Nat) : GoodCols c (List.replicate n {}) := by
   constructor <;> intro j s h <;> rw [colAt_replicate] at h <;> cases h
